@@ -272,10 +272,12 @@ class Effects:
                                   for r in alts(rk)) and bool(alts(rk))
                 if lo <= nargs <= hi and not known_other:
                     eff = PATH_METHODS[cal.name]
+                    # a parameter as receiver keeps its kind: the ownership rules re-evaluate it with the caller's actual argument
+                    recv = rk if any(a and a[0] == 'param' for a in alts(rk)) else UNK
                     if eff in ('RENAME', 'REPLACE', 'LINK'):
-                        out.append((eff, UNK, K.kind(call.args[0], fr) if call.args else UNK))
+                        out.append((eff, recv, K.kind(call.args[0], fr) if call.args else UNK))
                     else:
-                        out.append((eff, UNK))
+                        out.append((eff, recv))
             return out
         return []
 
